@@ -112,9 +112,14 @@ def universe(thorough: bool, big: bool = False) -> typing.List[TypeDef]:
         "Ivd": "uint8 a\nuint16[<=2] v\n@extent 80\n",
         "Ius": "@union\nuint8 a\nuint16[<=2] v\nbool c\n@sealed\n",
         "Iud": "@union\nuint8 a\nint13 b\n@extent 40\n",
+        # delimited, variable length, extent == longest representation, last write unaligned and inside the last byte
+        "Ivx": "uint8[<=2] data\nbool flag\ntruncated uint7 rest\n@extent 32\n",
+        # ... and one that ends with such an object (nested forks, every level exactly full at maximum length)
+        "Ivy": "uint8[<=2] d\nNS.Ivx.1.0 last\n@extent 88\n",
     }
+    inner_deps = {"Ivy": ("Ivx",)}
     for n, body in inners.items():
-        out.append(TypeDef(n, "L3i", body, True))
+        out.append(TypeDef(n, "L3i", body, True, inner_deps.get(n, ())))
     for n in inners:
         for use, ue in (("f", ""), ("a2", "[2]"), ("v2", "[<=2]")):
             for k in (0, 3):
@@ -123,6 +128,8 @@ def universe(thorough: bool, big: bool = False) -> typing.List[TypeDef]:
         out.append(TypeDef(f"L3{n}u", "L3", f"@union\nuint8 a\nNS.{n}.1.0 x\nNS.{n}.1.0[<=2] y\n@sealed\n", True, (n,)))
         # an alternative that is a FIXED-length array of composites (its elements own whatever the composite owns)
         out.append(TypeDef(f"L3{n}ua", "L3", f"@union\nuint8 a\nNS.{n}.1.0[2] z\nNS.{n}.1.0 x\n@sealed\n", n in ("Ivs", "Ivd", "Ius", "Ifd"), (n,)))
+        # ... and as the FIRST alternative (the one a default-constructed union holds)
+        out.append(TypeDef(f"L3{n}ub", "L3", f"@union\nNS.{n}.1.0[2] z\nuint8 a\n@sealed\n", n in ("Ivs", "Ius"), (n,)))
     # depth 3 nesting, delimited inside delimited inside sealed
     out.append(TypeDef("N2", "L3i", "uint8 h\nNS.Ivd.1.0 m\nNS.Iud.1.0[<=2] us\n@extent 400\n", True, ("Ivd", "Iud")))
     out.append(TypeDef("L3N3", "L3", "truncated uint3 p\nNS.N2.1.0 n\nNS.N2.1.0[<=1] ns\nuint8 tail\n@sealed\n", True, ("N2",)))
@@ -134,10 +141,18 @@ def universe(thorough: bool, big: bool = False) -> typing.List[TypeDef]:
         out.append(TypeDef(f"L4{a}_{b}", "L4", f"@union\n{ae} a\n{be} b\n@sealed\n", a in ("b", "v8", "cv") or b in ("f16", "vb"), deps))
     out.append(TypeDef("L4three", "L4", "@union\nuint8 a\nint13 b\nNS.Ivs.1.0 c\n@sealed\n", True, ("Ivs",)))
     out.append(TypeDef("L4three_d", "L4", "@union\nuint8 a\nint13[2] b\nNS.Ivs.1.0 c\n@extent 128\n", True, ("Ivs",)))
+    # option counts at the boundary of the 8-bit tag: 255, 256 (= 2^8: "count" no longer fits the tag type), 257 (16-bit tag)
+    out.append(TypeDef("L4big256", "L4", "@union\n" + "".join(f"uint8 a{i}\n" for i in range(255)) + "uint16 last\n@sealed\n", True))
     if thorough:
+        out.append(TypeDef("L4big255", "L4", "@union\n" + "".join(f"uint8 a{i}\n" for i in range(254)) + "uint16 last\n@sealed\n", False))
         big = "@union\n" + "".join(f"uint8 a{i}\n" for i in range(256)) + "uint16 last\n@sealed\n"
         out.append(TypeDef("L4big257", "L4", big, False))
     # ---- L5 misc: mixed struct with many kinds (maximally wide), empty, constants-only
+    # padding only: nothing to store, but a non-empty wire representation (sizes, buffer checks, zero fill still apply)
+    out.append(TypeDef("L5void16", "L5", "void16\n@sealed\n", True))
+    out.append(TypeDef("L5void3", "L5", "void3\n@sealed\n", True))
+    out.append(TypeDef("L5void8d", "L5", "void8\n@extent 64\n", True))
+    out.append(TypeDef("L5svcvoid", "L5", "void64\n@sealed\n---\nvoid7\n@extent 16\n", True))
     out.append(TypeDef("L5empty", "L5", "@sealed\n", True))
     out.append(TypeDef("L5emptyd", "L5", "@extent 0\n", True))
     out.append(
